@@ -341,6 +341,29 @@ class _WorkPrec:
         return False
 
 
+def _inexact_floor(q, which):
+    """floor()/ceil() of an mp value that carries a rounding error bound e: the computed value v satisfies
+    |v - n/d| <= e, so the result is any integer k with floor(n/d - e) <= k <= floor(n/d + e) (resp. ceil).
+    The choice is left to the solver and the path is marked rounding-dependent: a counterexample found on
+    it is believed only when it replays on the real code."""
+    from . import engine
+    r = engine.cur()
+    e = Fraction(q.err)
+    k = r.fresh_int(which)
+    n, d = q.num, q.den
+    # lo = n/d - e, hi = n/d + e, over the common denominator d*e.den
+    D = d * e.denominator
+    lo = n * e.denominator - e.numerator * d
+    hi = n * e.denominator + e.numerator * d
+    if which == "floor":
+        r.assume(z3.And(k * D <= hi, (k + 1) * D > lo))
+    else:
+        r.assume(z3.And(k * D >= lo, (k - 1) * D < hi))
+    r.approx = "%s() of a value with rounding error bound %s" % (which, builtins.float(e))
+    PREC.flag("%s-inexact" % which, "%s() of value with error bound %s" % (which, builtins.float(e)))
+    return SymQ(k, 1, "mp", None if q.bound is None else q.bound + 1, 0)
+
+
 class MpmathShim:
     """Model of the few mpmath entry points ebb_calc uses.  Values are exact rationals (SymQ /
     SymFrac / SymRoot) tagged kind='mp'; PrecisionState tracks the precision in force."""
@@ -377,7 +400,7 @@ class MpmathShim:
             return x.floor_mp()
         q = SymQ.of(x)
         if q.err:
-            PREC.flag("floor-inexact", "floor() of value with error bound %s" % builtins.float(q.err))
+            return _inexact_floor(q, "floor")
         f = q.floor_int()
         return SymQ(f.t, 1, "mp", None if q.bound is None else q.bound + 1, 0)
 
@@ -388,7 +411,7 @@ class MpmathShim:
             return x.ceil_mp()
         q = SymQ.of(x)
         if q.err:
-            PREC.flag("ceil-inexact", "ceil() of value with error bound %s" % builtins.float(q.err))
+            return _inexact_floor(q, "ceil")
         f = q.ceil_int()
         return SymQ(f.t, 1, "mp", None if q.bound is None else q.bound + 1, 0)
 
